@@ -27,6 +27,8 @@ structure In where
   id : String := ""
   /-- `storage.AuthRequestByID id`; `none` = error -/
   stored : Option Rec := none
+  /-- the text of the error `AuthRequestByID` returned (meaningful when `stored = none`) -/
+  storedErr : String := ""
   /-- `storage.GetEntityIDByAppID rec.appID`; `none` = error -/
   entity : Option String := none
   /-- `storage.SetUserinfoWithUserID`: `none` = error, else the attribute record it filled -/
@@ -113,7 +115,7 @@ def callback (o : Ora) (i : In) : Out :=
   if i.parseErr then .httpError 500 else
   if i.id == "" then .httpError 500 else
   match i.stored with
-  | none => .reply .xmlBody (failedMsg i "" "" statusRequestDenied "failed to get request") .none
+  | none => .reply .xmlBody (failedMsg i "" "" statusRequestDenied ("failed to get request: " ++ i.storedErr)) .none
   | some rec =>
   match i.entity with
   | none => .httpError 500
